@@ -68,7 +68,7 @@ def run(ctx):
     io = decsuite.run_impl(ctx, "c15", cases)
     mo = decsuite.run_model(ctx, "c15", cases)
     for c in cases:
-        if not decsuite.same_shape(mo.get(c[0]), io.get(c[0])):      # this property relates runs of the implementation; values are not the tie's business
+        if not decsuite.same_shape(mo.get(c[0]), io.get(c[0]), upto_crash=True):      # this property relates runs of the implementation; values are not the tie's business
             broken.append("correspondence picture-stream: model and implementation differ on history %d" % c[0])
     nontriv = set()
     for a, b, pads, n in groups:
